@@ -25,7 +25,7 @@ CONSTANTS
   TupMode = "one"
   WType = "pl"
   SelMode = "rot"
-  MaxHist = 5
+  MaxHist = 4
   Walk = "fixed"
   Lin = "fixed"
   GuardF40 = FALSE
